@@ -95,10 +95,11 @@ impl Block {
         let mut aligned = rkyv::AlignedVec::with_capacity(meta_len);
         aligned.extend_from_slice(&meta_buffer[2..2 + meta_len]);
 
-        // SAFETY: `aligned` contains bytes we just read from our own file format.
-        // We bounded `meta_len` to PREFIX_META_SIZE and copy into an `AlignedVec`,
-        // which satisfies alignment requirements of rkyv.
-        let archived = unsafe { rkyv::archived_root::<Metadata>(&aligned[..]) };
+        // The bytes come from disk and may be damaged: validate the archive (root position,
+        // name pointer/length inside the buffer, UTF-8) instead of trusting it.
+        let archived = rkyv::check_archived_root::<Metadata>(&aligned[..]).map_err(|_| {
+            std::io::Error::new(std::io::ErrorKind::InvalidData, "corrupt entry metadata")
+        })?;
         let meta: Metadata = archived.deserialize(&mut rkyv::Infallible).map_err(|_| {
             std::io::Error::new(
                 std::io::ErrorKind::InvalidData,
@@ -109,6 +110,13 @@ impl Block {
 
         // Read the actual data
         let new_offset = file_offset + PREFIX_META_SIZE as u64;
+        // A damaged size field must not make us allocate gigabytes or read past the file.
+        if new_offset.saturating_add(actual_entry_size as u64) > self.mmap.len() as u64 {
+            return Err(std::io::Error::new(
+                std::io::ErrorKind::InvalidData,
+                "entry size exceeds file bounds",
+            ));
+        }
         let mut ret_buffer = vec![0; actual_entry_size];
         self.mmap.read(new_offset as usize, &mut ret_buffer);
 
